@@ -12,6 +12,7 @@ import (
 	"os"
 	"path/filepath"
 	"runtime"
+	"sort"
 	"strings"
 	"sync"
 	"sync/atomic"
@@ -60,7 +61,7 @@ func instantiate(in Input) Input {
 }
 
 var ops = map[string][]string{
-	"project": {"check", "len", "example", "ast", "used", "openapi"},
+	"project": {"check", "len", "example", "ast", "used", "openapi", "deref"},
 	"enum":    {"check", "values", "len", "ast"},
 	"regex":   {"check", "pattern", "example", "openapi"},
 	"doc":     {"check", "len", "lexemes"},
@@ -125,6 +126,27 @@ func perform(o *object, op string) (out string) {
 		b, err := openapi.NewSchemaObject(o.s).MarshalJSON()
 		runtime.Gosched()
 		return fmt.Sprintf("%s,%v", b, err)
+	case "project:deref":
+		if o.s.Check() != nil {
+			return "not accepted"
+		}
+		var b strings.Builder
+		for _, inf := range openapi.Dereference(o.s) {
+			j, err := inf.SchemaObject().MarshalJSON()
+			fmt.Fprintf(&b, "%v %s %v;", inf.Type(), j, err)
+			if oi, ok := inf.(openapi.ObjectInformer); ok {
+				for _, pi := range oi.PropertiesInfos() {
+					fmt.Fprintf(&b, " %s:%v", pi.Key(), pi.Optional())
+				}
+			}
+		}
+		// a conversion reads the schema: the set of types registered on it is what it was
+		names := make([]string, 0, len(o.s.UserTypeCollection))
+		for n := range o.s.UserTypeCollection {
+			names = append(names, n)
+		}
+		sort.Strings(names)
+		return b.String() + " registered=" + strings.Join(names, ",")
 	case "number:string":
 		n, err := jjson.NewNumber(jbytes.NewBytes(o.in.Text))
 		if err != nil {
@@ -296,6 +318,25 @@ func corpusInputs() ([]Input, []map[string]string) {
 		// rejected with a position deep inside a longer text (line and column are computed from the shared text)
 		for i := 0; i < 6; i++ {
 			special(Input{Kind: "project", Project: &sut.Project{Root: "{\n" + strings.Repeat("  \"filler\": [1, 2, 3],\n", 0) + strings.Repeat(fmt.Sprintf("  \"k%d\": \"v\",\n", i), 1) + deepLines(40+i*25) + fmt.Sprintf("  \"bad%d\": 1 // {min: 2}\n}", i)}})
+		}
+		// rejected on a line of more than 200 bytes (the rendered error quotes the beginning of such a line and
+		// three dots): arrays of short items, objects of short properties, one long string - shifted by 0-3
+		// bytes so that structural characters stand at every offset around the cut
+		for i := 0; i < 4; i++ {
+			pad := strings.Repeat(" ", i)
+			items := strings.TrimSuffix(strings.Repeat("1, ", 90), ", ")
+			special(Input{Kind: "project", Project: &sut.Project{Root: "{\n" + pad + "  \"bad\": [" + items + "] // {minItems: 900}\n}"}})
+			special(Input{Kind: "project", Project: &sut.Project{Root: "{\n" + pad + "  \"bad\": [" + strings.TrimSuffix(strings.Repeat("\"ab\", ", 60), ", ") + "], // {maxItems: 1}\n  \"next\": 1\n}"}})
+			special(Input{Kind: "doc", Text: pad + "{\"k\": [" + items + "}"})
+			special(Input{Kind: "enum", Text: pad + "[" + items + ", 1]"})
+		}
+		// types that bring types of their own (registered on the type, unknown to the root): reference roots,
+		// alternatives, inheritance
+		for i := 0; i < 4; i++ {
+			carried := []sut.Named{{Name: "@inner", Text: fmt.Sprintf("{\n  \"i\": %d\n}", i)}, {Name: "@inner2", Text: "\"x\""}}
+			special(Input{Kind: "project", Project: &sut.Project{Root: "@alias", Types: []sut.Named{{Name: "@alias", Text: "@inner", Own: carried}}}})
+			special(Input{Kind: "project", Project: &sut.Project{Root: "@alias | @plain", Types: []sut.Named{{Name: "@alias", Text: "@inner | @inner2", Own: carried}, {Name: "@plain", Text: "1"}}}})
+			special(Input{Kind: "project", Project: &sut.Project{Root: fmt.Sprintf("{ // {allOf: \"@heir\"}\n  \"own%d\": 1\n}", i), Types: []sut.Named{{Name: "@heir", Text: "{ // {allOf: \"@inner\"}\n  \"h\": @inner2\n}", Own: carried}}}})
 		}
 		// or rule-sets that name a format type (the conversions read the rule-set they are given)
 		for _, ty := range []struct{ ex, ty string }{{`"2021-01-02T07:23:12+03:00"`, "datetime"}, {`"a@b.cc"`, "email"}, {`"https://a.b/c"`, "uri"},
